@@ -459,12 +459,16 @@ def run_ident(case):
     p = build_prior(case["p"])
     labels = [case["p"]["k"]]
     ident = [("p+0", lambda: p + 0), ("0+p", lambda: 0 + p), ("p*1", lambda: p * 1), ("1*p", lambda: 1 * p), ("p-0", lambda: p - 0),
-             ("p+0.0", lambda: p + 0.0), ("p*1.0", lambda: p * 1.0), ("p/1", lambda: p / 1)]
+             ("p+0.0", lambda: p + 0.0), ("p*1.0", lambda: p * 1.0), ("p/1", lambda: p / 1),
+             # numbers that are numpy scalars (what indexing an array gives), on either side
+             ("p+np.float64(0)", lambda: p + np.float64(0)), ("np.float64(0)+p", lambda: np.float64(0) + p),
+             ("p*np.int64(1)", lambda: p * np.int64(1)), ("np.int64(1)*p", lambda: np.int64(1) * p), ("np.float64(1)*p", lambda: np.float64(1.0) * p)]
     for nm, f in ident:
         r = f()
         if r is not p:
             return Outcome(failure("identity_not_self", "%s does not return the prior itself (%r)" % (nm, type(r).__name__), expr=nm), True, labels)
-    must_raise = [("p*0", lambda: p * 0), ("0*p", lambda: 0 * p), ("p*0.0", lambda: p * 0.0), ("p+'a'", lambda: p + "a"), ("p*[1]", lambda: p * [1]),
+    must_raise = [("p*0", lambda: p * 0), ("0*p", lambda: 0 * p), ("p*0.0", lambda: p * 0.0),
+                  ("p*np.float64(0)", lambda: p * np.float64(0)), ("np.float64(0)*p", lambda: np.float64(0) * p), ("np.int64(0)*p", lambda: np.int64(0) * p), ("p+'a'", lambda: p + "a"), ("p*[1]", lambda: p * [1]),
                   ("p*1j", lambda: p * 1j), ("p+None", lambda: p + None), ("p*'a'", lambda: p * "a"), ("p+[1,2]", lambda: p + [1, 2])]
     for nm, f in must_raise:
         try:
